@@ -59,6 +59,8 @@ func (g *FnGen) selectImpl(s *State, x *ssa.Select) {
 	}
 	g.assume(s, and(app("<=", lo, idx), app("<", idx, intLit(int64(n)))))
 	tuple := []string{idx, g.fresh("recvok", "Bool")}
+	recvVal := map[int]string{}
+	recvTyp := map[int]types.Type{}
 	for i, st := range x.States {
 		ch := g.term(s, st.Chan)
 		here := eq(idx, intLit(int64(i)))
@@ -68,6 +70,7 @@ func (g *FnGen) selectImpl(s *State, x *ssa.Select) {
 			v := g.fresh(fmt.Sprintf("recv%d", i), g.c.reg.sortOf(et))
 			g.assume(s, g.typeInv(s, v, et, 0))
 			tuple = append(tuple, v)
+			recvVal[i], recvTyp[i] = v, et
 			g.recvEffect(s, ch, here)
 		} else {
 			g.term(s, st.Send)
@@ -87,6 +90,9 @@ func (g *FnGen) selectImpl(s *State, x *ssa.Select) {
 				panic(genErr("%s: unknown ghost %s", sg.Where, sg.Ghost))
 			}
 			env := g.newEnv(s, g.entry)
+			if rv, ok := recvVal[sg.Case]; ok {
+				env.vars["recv"] = TVal{term: rv, ty: Ty{sort: g.c.reg.sortOf(recvTyp[sg.Case]), gt: recvTyp[sg.Case]}}
+			}
 			v := env.eval(sg.E)
 			ng := g.fresh("G_"+sg.Ghost, g.c.specSort(gd.Sort, nil).sort)
 			g.defs = append(g.defs, eq(ng, ite(eq(idx, intLit(int64(sg.Case))), v.term, g.ghost(s, sg.Ghost))))
@@ -108,6 +114,7 @@ func (g *FnGen) recvImpl(s *State, x *ssa.UnOp) {
 	} else {
 		g.vals[x] = &Val{term: v}
 	}
+	g.runHooks(s, x, v, et)
 }
 
 func (g *FnGen) sendImpl(s *State, x *ssa.Send) {
